@@ -409,6 +409,15 @@ class _PolyEx(Extractor):
                         return tuple(sp.Integer(k) for k in range(int(lo), int(hi)))
                     if isinstance(lo, sp.Basic) and isinstance(hi, sp.Basic):
                         return ARANGE(lo, hi)
+            if isnp and short == "expand_dims" and len(n.args) + len(n.keywords) == 2:
+                # np.expand_dims(v, 1) == v[:, None] and np.expand_dims(v, 0) == v[None, :] for a vector v (grid points, index range):
+                # the same broadcasting wrapper as the subscript spelling, not a contraction step
+                ax = kwarg(n, "axis", 1)
+                a0 = kwarg(n, "a", 0)
+                if isinstance(ax, ast.Constant) and ax.value in (0, 1) and a0 is not None:
+                    v = self.expr(a0, env, depth)
+                    if isinstance(v, sp.Basic) and (_fn(v, GRIDPTS) or (v.has(ARANGE) and not v.has(BC) and not v.has(GRIDPTS))):
+                        return BC(v, sp.Symbol("bc|:,None" if ax.value == 1 else "bc|None,:"))
             if short == "getCompactCoordinates" and len(parts) > 1 and self.sig(short):
                 names, dfl = self.sig(short)
                 a = self.bind(n, names, dfl, env, depth)
